@@ -548,7 +548,7 @@ Proof.
 Qed.
 
 Theorem rpc_invalid_rejected auth md calls h t : valid_user md calls = false ->
-  rpc auth md calls h t = fail_obs 13 [].
+  rpc auth md calls h t = fail_obs 13 0 [].
 Proof. intro Hv. unfold rpc. rewrite valid_user_validate_out, Hv. reflexivity. Qed.
 
 (* ---------- the executable predicate holds on every model trace ---------- *)
@@ -615,8 +615,8 @@ Lemma hop_names_refuted :
   valid_user md_host1 [] = true /\ valid_user md_host2 [] = true /\ valid_user md_conn [] = true /\
   rpc [97] md_host1 [] [] [] = expect_ok [97] [] [] [] [] /\      (* host silently dropped *)
   rpc [97] md_host1 [] [] [] <> expect_ok [97] md_host1 [] [] [] /\
-  rpc [97] md_host2 [] [] [] = fail_obs 13 [(n_content_type, [ct_grpc])] /\
-  rpc [97] md_conn [] [] [] = fail_obs 13 [].
+  rpc [97] md_host2 [] [] [] = fail_obs 13 1 [(n_content_type, [ct_grpc])] /\
+  rpc [97] md_conn [] [] [] = fail_obs 13 1 [].
 Proof. vm_compute. repeat split; try reflexivity. discriminate. Qed.
 
 (* ---------- what [group] means: per key, the values in order ---------- *)
